@@ -1370,6 +1370,32 @@ cmd_peek(void) {
 }
 
 static void
+cmd_peekobs(void) {
+  /* grey-box, auxiliary: the subscribers the library currently holds */
+  node_t *nd = &nodes[atoi(tok[1])];
+  RESOURCES_ITER(nd->ctx->resources, r) {
+    coap_subscription_t *s;
+    LL_FOREACH(r->subscribers, s) {
+      ev_begin("psub");
+      ev_hex("res", r->uri_path->s, r->uri_path->length);
+      ev_int("sess", sess_id(s->session));
+      ev_addr("remote", &s->session->addr_info.remote);
+      ev_hex("tok", s->pdu->actual_token.s, s->pdu->actual_token.length);
+      ev_int("dirty", s->dirty);
+      ev_int("fail_cnt", s->fail_cnt);
+      ev_int("non_cnt", s->non_cnt);
+      ev_end();
+    }
+    ev_begin("pres");
+    ev_hex("res", r->uri_path->s, r->uri_path->length);
+    ev_int("dirty", r->dirty);
+    ev_int("partiallydirty", r->partiallydirty);
+    ev_int("observe", (long)r->observe);
+    ev_end();
+  }
+}
+
+static void
 free_node(int n) {
   node_t *nd = &nodes[n];
   int i;
@@ -1404,7 +1430,7 @@ static void
 run_command(void) {
   const char *c = tok[0];
   static const char *noded[] = {"node", "ctx", "ep", "res", "delres", "sess", "send", "notify",
-                                "prepare", "io", "peek", "verdict", "cancelobs", "release",
+                                "prepare", "io", "peek", "peekobs", "verdict", "cancelobs", "release",
                                 "disconnect", "appref", "apprelease", "freenode", NULL};
   int i;
   for (i = 0; noded[i]; i++)
@@ -1448,6 +1474,8 @@ run_command(void) {
     vf_now_ms += (uint64_t)strtoull(tok[1], NULL, 10);
   else if (!strcmp(c, "peek"))
     cmd_peek();
+  else if (!strcmp(c, "peekobs"))
+    cmd_peekobs();
   else if (!strcmp(c, "seed")) {
     prng_state = strtoull(tok[1], NULL, 10) * 2685821657736338717ULL + 1442695040888963407ULL;
     if (!prng_state)
